@@ -106,12 +106,24 @@ func runC12(t *testing.T, c HandleCase) (*h.Violation, h.Info) {
 		info.Class("start-up-cache-with-an-oddly-spelled-value")
 	}
 	cache := fake.NewCache(cacheBytes)
+	// the program also has d1 and d2 filled into a struct of its own (copies, says the documentation) ...
+	var own struct {
+		D1 []byte `setec:"d1"`
+		D2 []byte `setec:"d2"`
+	}
 	st, err := setec.NewStore(context.Background(), setec.StoreConfig{
-		Client: svc, Secrets: []string{"d1", "d2"}, AllowLookup: true, Cache: cache,
+		Client: svc, Secrets: []string{"d1", "d2"}, Structs: []setec.Struct{{Value: &own}}, AllowLookup: true, Cache: cache,
 		PollTicker: tick, ExpiryAge: 10 * time.Second, TimeNow: clock.Now, Logf: nolog,
 	})
 	if err != nil {
 		return h.V("harness", "NewStore: %v", err), info
+	}
+	// ... and wipes them once it has used them: what the handles yield is none of its business
+	for i := range own.D1 {
+		own.D1[i] = 0
+	}
+	for i := range own.D2 {
+		own.D2[i] = '#'
 	}
 	if c.OddCache > 0 {
 		for _, n := range []string{"c1", "c2"} {
@@ -390,6 +402,23 @@ func runC12(t *testing.T, c HandleCase) (*h.Violation, h.Info) {
 			}
 		case "yield":
 			time.Sleep(200 * time.Microsecond)
+		case "failed-poll":
+			// the service fails the request for ONE secret during an explicit poll: the poll reports it,
+			// nothing it fetched for the other secrets counts as installed, and the next poll starts afresh
+			if closed || !known[ev.Name] {
+				continue
+			}
+			pending := plan()
+			svc.SetScript(ev.Name, []fake.Beh{{Kind: "err"}})
+			installing.Add(1)
+			err := st.Refresh(context.Background())
+			installing.Add(-1)
+			svc.SetScript(ev.Name, nil)
+			if err == nil {
+				commit(pending) // (the failing request was never needed)
+			} else {
+				info.Class("a-poll-that-failed-on-one-secret")
+			}
 		case "parked-poll":
 			// the service holds the first request of a poll while every handle is read
 			for n := range known {
@@ -510,8 +539,17 @@ func runC12(t *testing.T, c HandleCase) (*h.Violation, h.Info) {
 			svc.SetScript("d2", []fake.Beh{{Kind: "gate"}})
 			aDone := make(chan error, 1)
 			go func() { aDone <- st.Refresh(context.Background()) }()
-			if !waitInFlight(svc, "d2") {
+			if how, err := waitInFlightOr(svc, "d2", aDone); how == "timeout" {
 				fail("harness", "the poll did not reach the service within 20 s")
+			} else if how == "returned" {
+				// the poll came back without asking for d2 at all; if it says it succeeded, what it should
+				// have installed counts as acknowledged and the readers judge it
+				svc.SetScript("d2", nil)
+				if err == nil {
+					commit(pA)
+				}
+				info.Class("a-poll-returned-without-asking-for-a-known-secret")
+				continue
 			}
 			maxVer["d1"]++
 			cur["d1"] = maxVer["d1"]
@@ -568,8 +606,16 @@ func runC12(t *testing.T, c HandleCase) (*h.Violation, h.Info) {
 			actx, acancel := context.WithCancel(context.Background())
 			laDone := make(chan error, 1)
 			go func() { laDone <- st.Refresh(actx) }()
-			if !waitInFlight(svc, "d2") {
+			if how, err := waitInFlightOr(svc, "d2", laDone); how == "timeout" {
 				fail("harness", "the poll did not reach the service within 20 s")
+			} else if how == "returned" {
+				svc.SetScript("d2", nil)
+				acancel()
+				if err == nil {
+					commit(pL)
+				}
+				info.Class("a-poll-returned-without-asking-for-a-known-secret")
+				continue
 			}
 			lbDone := make(chan error, 1)
 			go func() { lbDone <- st.Refresh(context.Background()) }()
@@ -715,7 +761,7 @@ func genHandleCase(rt *rapid.T) HandleCase {
 	c.Events = rapid.SliceOfN(rapid.Custom(func(rt *rapid.T) HEvent {
 		return HEvent{
 			Back: rapid.IntRange(0, 3).Draw(rt, "back") == 0,
-			Kind: rapid.SampledFrom([]string{"set", "set", "set", "poll", "poll", "refresh", "lookup", "expire", "yield", "yield", "parked-poll", "parked-lookup", "handle-during-poll", "joiner-timeout", "double-lookup", "idle-handle", "leader-cancelled", "close"}).Draw(rt, "kind"),
+			Kind: rapid.SampledFrom([]string{"set", "set", "set", "poll", "poll", "refresh", "failed-poll", "lookup", "expire", "yield", "yield", "parked-poll", "parked-lookup", "handle-during-poll", "joiner-timeout", "double-lookup", "idle-handle", "leader-cancelled", "close"}).Draw(rt, "kind"),
 			Name: rapid.SampledFrom([]string{"d1", "d1", "d2", "u1", "u2", "u3", "c1", "c2"}).Draw(rt, "name"),
 		}
 	}), h.LenBias(rt, 3, 30), 30).Draw(rt, "events")
@@ -737,6 +783,23 @@ func TestC12RaceHandles(t *testing.T) { c12.Check(t) }
 
 // waitInFlight waits (real time, generously: the race detector and busy readers slow everything
 // down) until a request for name is being served.
+// waitInFlightOr is waitInFlight for a request made by a poll whose result arrives on done: it also
+// ends when the poll has returned without ever asking for name ("returned", with the poll's result).
+func waitInFlightOr(svc *fake.Svc, name string, done chan error) (string, error) {
+	for end := time.Now().Add(20 * time.Second); time.Now().Before(end); {
+		if svc.InFlight(name) > 0 {
+			return "inflight", nil
+		}
+		select {
+		case err := <-done:
+			return "returned", err
+		default:
+		}
+		time.Sleep(25 * time.Microsecond)
+	}
+	return "timeout", nil
+}
+
 func waitInFlight(svc *fake.Svc, name string) bool {
 	for end := time.Now().Add(20 * time.Second); time.Now().Before(end); {
 		if svc.InFlight(name) > 0 {
